@@ -491,6 +491,14 @@ def corpus_general(tier, seed, rnd, n=None):
     specs = []
     n = n or (300 if tier == "quick" else 4000)
     nss = ["numpy"] * 6 + (["torch", "jax"] if tier == "quick" else ["torch", "jax"] * 2)
+    # every (namespace, precision, preconditioning given / not given) combination occurs whatever the seed
+    k0 = 0
+    for ns0 in ("numpy", "torch", "jax"):
+        for dt0 in ("float64", "float32"):
+            for pc0 in ("none", "default"):
+                specs.append(dict(sampler="minipcn_smc", ns=ns0, N=8, dims=3, width=0.5, seed=seed * 1000 + 900 + k0, target=0.5,
+                                  precond=pc0, split=2, recipe=False, bad_frac=0.0, dtype=dt0, mcmc_steps=2, cut=None))
+                k0 += 1
     for i in range(n):
         smp = rnd.choice(["minipcn_smc"] * 3 + ["emcee_smc"])
         ns = rnd.choice(nss) if smp == "minipcn_smc" else "numpy"
